@@ -8,9 +8,9 @@ ID="$1"; shift
 PROPS=("$@"); [ ${#PROPS[@]} -eq 0 ] && PROPS=("${ID:0:3}")
 TIER="${TIER:-quick}"
 WT="/tmp/mut/run-$ID-$$"
-git -C /repo worktree prune
-git -C /repo worktree add -q --detach "$WT" HEAD || exit 2
-trap 'git -C /repo worktree remove --force "$WT" >/dev/null 2>&1; rm -rf /tmp/vd/$ID-$$' EXIT
+mkdir -p /tmp/mut
+flock /tmp/mut/.wtlock git -C /repo worktree add -q --detach "$WT" HEAD || exit 2
+trap 'flock /tmp/mut/.wtlock git -C /repo worktree remove --force "$WT" >/dev/null 2>&1; rm -rf /tmp/vd/$ID-$$' EXIT
 git -C "$WT" apply "/verif/seeded/$ID/patch.diff" || { echo "$ID: patch does not apply"; exit 2; }
 for P in "${PROPS[@]}"; do
   OUT=$(VERIF_REPO="$WT" VERIF_OUT="/tmp/vd/$ID-$$" timeout 900 /verif/check "$P" "$TIER" 2>&1); rc=$?
